@@ -1,74 +1,1220 @@
-// probe (temporary)
-use std::{process::Stdio, time::{Duration, Instant}};
+//! C20 — child processes: complete stdio and the real exit status.
+//!
+//! One scenario per line (see lean/Drivers/C20.lean for the format). The harness compiles the child
+//! script into a `/bin/sh -c` command made of coreutils (`cat`, `dd bs=`, `head -c`, `wc -c`, `tr`,
+//! `sleep`, `kill`), runs it through `compio_process` on the requested driver with the requested
+//! order of the parent's activities, and prints what it observed. The same command is also run through
+//! `std::process` with plain threads: that run is the implementation-only oracle of the monitors.
+//!
+//! A watchdog thread decides "deadlock": no progress of the parent for a while, every thread of the
+//! harness asleep and every process of the child's group asleep in `read`/`write`/`wait` (or a zombie).
+//! It then kills the group, which lets every pending future of the parent finish.
 
-use compio_driver::{DriverType, ProactorBuilder};
-use compio_io::{AsyncReadExt, AsyncWriteExt};
-use compio_process::Command;
+use std::{
+    fs, io,
+    os::unix::process::{CommandExt, ExitStatusExt},
+    process::{ExitStatus, Stdio},
+    sync::atomic::{AtomicBool, AtomicI32, AtomicU64, Ordering},
+    time::{Duration, Instant},
+};
+
+use compio_buf::BufResult;
+use compio_driver::{
+    AsFd, AsRawFd, BorrowedFd, DriverType, ProactorBuilder, RawFd, SharedFd,
+    op::{Interest, PollOnce},
+};
+use compio_io::{AsyncRead, AsyncReadExt, AsyncWriteExt};
+use compio_process::{ChildStdin, Command};
 use compio_runtime::Runtime;
+use hx_common::{Case, Exec, Rng, run_harness};
 
-fn build_rt(drv: &str) -> std::io::Result<Runtime> {
+const NOP_MS: u64 = 60;
+const CAT_BLK: u64 = 131072;
+const HEAD_BLK: u64 = 8192;
+const WC_BLK: u64 = 16384;
+
+// ---------------------------------------------------------------- scenario text
+
+#[derive(Clone, Debug, PartialEq)]
+enum Act {
+    Copy { lim: Option<u64>, blk: u64, dst: char },
+    Emit { dst: char, byte: u8, n: u64 },
+    Nop,
+    Exit(u32),
+    Kill(u32),
+}
+
+#[derive(Clone, Debug)]
+struct Scn {
+    drv: String,
+    route: String,
+    capin: u64,
+    capout: u64,
+    caperr: u64,
+    plan: String,
+    wch: usize,
+    rch: usize,
+    stdin_null: bool,
+    paylen: usize,
+    payseed: u64,
+    mode: String,
+    script: Vec<Act>,
+    opts: Vec<String>,
+}
+
+fn act_text(a: &Act) -> String {
+    match a {
+        Act::Copy { lim, blk, dst } => {
+            format!("copy:{}:{}:{}", lim.map(|n| n.to_string()).unwrap_or("*".into()), blk, dst)
+        }
+        Act::Emit { dst, byte, n } => format!("emit:{dst}:{byte}:{n}"),
+        Act::Nop => "nop".into(),
+        Act::Exit(c) => format!("exit:{c}"),
+        Act::Kill(s) => format!("kill:{s}"),
+    }
+}
+
+fn script_text(s: &[Act]) -> String {
+    if s.is_empty() { "-".into() } else { s.iter().map(act_text).collect::<Vec<_>>().join(";") }
+}
+
+impl Scn {
+    fn line(&self) -> String {
+        format!(
+            "run {} {} {} {} {} {} {} {} {} {} {} {} {} {}",
+            self.drv,
+            self.route,
+            self.capin,
+            self.capout,
+            self.caperr,
+            self.plan,
+            self.wch,
+            self.rch,
+            if self.stdin_null { "null" } else { "pipe" },
+            self.paylen,
+            self.payseed,
+            self.mode,
+            script_text(&self.script),
+            if self.opts.is_empty() { "-".into() } else { self.opts.join(",") }
+        )
+    }
+
+    fn opt(&self, o: &str) -> bool {
+        self.opts.iter().any(|x| x == o)
+    }
+}
+
+fn parse_act(t: &str) -> Option<Act> {
+    let p: Vec<&str> = t.split(':').collect();
+    let dst = |s: &str| match s {
+        "o" => Some('o'),
+        "e" => Some('e'),
+        "n" => Some('n'),
+        _ => None,
+    };
+    match p.as_slice() {
+        ["copy", lim, blk, d] => Some(Act::Copy {
+            lim: if *lim == "*" { None } else { Some(lim.parse().ok()?) },
+            blk: blk.parse().ok()?,
+            dst: dst(d)?,
+        }),
+        ["emit", d, b, n] => Some(Act::Emit { dst: dst(d)?, byte: b.parse().ok()?, n: n.parse().ok()? }),
+        ["nop"] => Some(Act::Nop),
+        ["exit", c] => Some(Act::Exit(c.parse().ok()?)),
+        ["kill", s] => Some(Act::Kill(s.parse().ok()?)),
+        _ => None,
+    }
+}
+
+fn parse_line(l: &str) -> Option<Scn> {
+    let w: Vec<&str> = l.split_whitespace().collect();
+    if w.len() != 15 || w[0] != "run" {
+        return None;
+    }
+    let script = if w[13] == "-" {
+        vec![]
+    } else {
+        w[13].split(';').map(parse_act).collect::<Option<Vec<_>>>()?
+    };
+    let sc = Scn {
+        drv: w[1].into(),
+        route: w[2].into(),
+        capin: w[3].parse().ok()?,
+        capout: w[4].parse().ok()?,
+        caperr: w[5].parse().ok()?,
+        plan: w[6].into(),
+        wch: w[7].parse().ok()?,
+        rch: w[8].parse().ok()?,
+        stdin_null: match w[9] {
+            "null" => true,
+            "pipe" => false,
+            _ => return None,
+        },
+        paylen: w[10].parse().ok()?,
+        payseed: w[11].parse().ok()?,
+        mode: w[12].into(),
+        script,
+        opts: if w[14] == "-" { vec![] } else { w[14].split(',').map(String::from).collect() },
+    };
+    let ok = ["uring", "poll"].contains(&sc.drv.as_str())
+        && ["pool", "pidfd"].contains(&sc.route.as_str())
+        && ["conc", "drainwait", "waitdrain", "seq", "held"].contains(&sc.plan.as_str())
+        && sc.wch > 0
+        && sc.rch > 0
+        && sc.script.iter().all(|a| !matches!(a, Act::Copy { blk: 0, .. }));
+    ok.then_some(sc)
+}
+
+fn payload_of(len: usize, seed: u64) -> Vec<u8> {
+    (0..len as u64).map(|i| ((seed * 7 + i * 31 + (i / 256) * 17) % 251) as u8).collect()
+}
+
+fn fnv(bs: &[u8]) -> u64 {
+    let mut h: u64 = 0xcbf2_9ce4_8422_2325;
+    for b in bs {
+        h ^= *b as u64;
+        h = h.wrapping_mul(0x1000_0000_01b3);
+    }
+    h
+}
+
+fn show_bytes(bs: &[u8]) -> String {
+    format!("{}:{}", bs.len(), fnv(bs))
+}
+
+fn show_status(st: &ExitStatus) -> String {
+    if let Some(c) = st.code() {
+        format!("code:{c}")
+    } else if let Some(s) = st.signal() {
+        format!("sig:{s}")
+    } else {
+        "other".into()
+    }
+}
+
+/// the child program as a `/bin/sh -c` text
+fn compile(script: &[Act]) -> String {
+    let redir = |d: char| match d {
+        'e' => " >&2",
+        _ => "",
+    };
+    let mut parts = vec![];
+    for a in script {
+        parts.push(match a {
+            Act::Copy { lim: None, blk, dst: 'n' } => {
+                if *blk == WC_BLK { "wc -c >>\"$C20F\"".to_string() } else { format!("dd bs={blk} status=none | wc -c >>\"$C20F\"") }
+            }
+            Act::Copy { lim: None, blk, dst } => {
+                if *blk == CAT_BLK { format!("cat{}", redir(*dst)) } else { format!("dd bs={blk} status=none{}", redir(*dst)) }
+            }
+            Act::Copy { lim: Some(n), dst: 'n', .. } => format!("head -c {n} | wc -c >>\"$C20F\""),
+            Act::Copy { lim: Some(n), dst, .. } => format!("head -c {n}{}", redir(*dst)),
+            Act::Emit { dst: 'n', .. } => ":".to_string(),
+            Act::Emit { dst, byte, n } => {
+                if *n <= 64 && byte.is_ascii_alphanumeric() {
+                    format!("printf %s {}{}", String::from_utf8(vec![*byte; *n as usize]).unwrap(), redir(*dst))
+                } else if *n == 0 {
+                    ":".to_string()
+                } else {
+                    format!("head -c {n} /dev/zero | tr '\\000' '\\{:03o}'{}", byte, redir(*dst))
+                }
+            }
+            Act::Nop => format!("sleep 0.{NOP_MS:03}"),
+            Act::Exit(c) => format!("exit {c}"),
+            Act::Kill(s) => format!("kill -{s} $$"),
+        });
+    }
+    if parts.is_empty() { ":".into() } else { parts.join("; ") }
+}
+
+fn read_sunk(path: &str) -> u64 {
+    let s = fs::read_to_string(path).unwrap_or_default();
+    let _ = fs::remove_file(path);
+    s.split_whitespace().filter_map(|t| t.parse::<u64>().ok()).sum()
+}
+
+// ---------------------------------------------------------------- watchdog
+
+static ACTIVE_PID: AtomicI32 = AtomicI32::new(0);
+static PROGRESS: AtomicU64 = AtomicU64::new(0);
+static DEADLOCK: AtomicBool = AtomicBool::new(false);
+static THRESH_MS: AtomicU64 = AtomicU64::new(250);
+static WD_TID: AtomicI32 = AtomicI32::new(0);
+
+fn bump() {
+    PROGRESS.fetch_add(1, Ordering::Relaxed);
+}
+
+fn proc_state(path: &str) -> Option<char> {
+    let s = fs::read_to_string(path).ok()?;
+    let r = s.rfind(')')?;
+    s[r + 1..].trim_start().chars().next()
+}
+
+fn descendants(pid: i32, out: &mut Vec<i32>) {
+    out.push(pid);
+    if let Ok(rd) = fs::read_dir(format!("/proc/{pid}/task")) {
+        for t in rd.flatten() {
+            if let Ok(s) = fs::read_to_string(t.path().join("children")) {
+                for c in s.split_whitespace().filter_map(|x| x.parse::<i32>().ok()) {
+                    if !out.contains(&c) {
+                        descendants(c, out);
+                    }
+                }
+            }
+        }
+    }
+}
+
+/// every process below `pid` is a zombie / gone or asleep in read, write, wait4, waitid
+fn group_blocked(pid: i32) -> bool {
+    let mut ps = vec![];
+    descendants(pid, &mut ps);
+    for p in ps {
+        match proc_state(&format!("/proc/{p}/stat")) {
+            None | Some('Z') | Some('X') => continue,
+            Some('S') => {
+                let sc = fs::read_to_string(format!("/proc/{p}/syscall")).unwrap_or_default();
+                let nr = sc.split_whitespace().next().and_then(|x| x.parse::<i64>().ok());
+                match nr {
+                    Some(0) | Some(1) | Some(61) | Some(247) | Some(17) | Some(18) | Some(19) | Some(20) => {}
+                    _ => return false,
+                }
+            }
+            _ => return false,
+        }
+    }
+    true
+}
+
+/// every thread of this process except the watchdog is asleep
+fn self_asleep() -> bool {
+    let me = WD_TID.load(Ordering::Relaxed);
+    if let Ok(rd) = fs::read_dir("/proc/self/task") {
+        for t in rd.flatten() {
+            let tid: i32 = t.file_name().to_string_lossy().parse().unwrap_or(0);
+            if tid == me {
+                continue;
+            }
+            match proc_state(&format!("/proc/self/task/{tid}/stat")) {
+                Some('S') | Some('I') | None => {}
+                _ => return false,
+            }
+        }
+    }
+    true
+}
+
+fn start_watchdog() {
+    std::thread::spawn(|| {
+        WD_TID.store(unsafe { libc::syscall(libc::SYS_gettid) } as i32, Ordering::Relaxed);
+        let mut cur = 0;
+        let mut last = 0u64;
+        let mut since = Instant::now();
+        let mut started = Instant::now();
+        loop {
+            std::thread::sleep(Duration::from_millis(10));
+            let pid = ACTIVE_PID.load(Ordering::SeqCst);
+            if pid == 0 {
+                cur = 0;
+                continue;
+            }
+            let p = PROGRESS.load(Ordering::Relaxed);
+            if pid != cur {
+                cur = pid;
+                last = p;
+                since = Instant::now();
+                started = since;
+                continue;
+            }
+            if started.elapsed() > Duration::from_secs(60) {
+                eprintln!("c20 harness: case exceeded 60 s, aborting");
+                unsafe { libc::kill(-pid, libc::SIGKILL) };
+                std::process::abort();
+            }
+            if p != last || DEADLOCK.load(Ordering::SeqCst) {
+                last = p;
+                since = Instant::now();
+                continue;
+            }
+            if !(self_asleep() && group_blocked(pid)) {
+                since = Instant::now();
+                continue;
+            }
+            if since.elapsed() >= Duration::from_millis(THRESH_MS.load(Ordering::Relaxed)) {
+                DEADLOCK.store(true, Ordering::SeqCst);
+                unsafe {
+                    libc::kill(-pid, libc::SIGKILL);
+                    libc::kill(pid, libc::SIGKILL);
+                }
+            }
+        }
+    });
+}
+
+// ---------------------------------------------------------------- observations
+
+#[derive(Default, Debug)]
+struct Obs {
+    out: Vec<u8>,
+    err: Vec<u8>,
+    sunk: u64,
+    /// "ok" | "epipe" | other error kinds
+    w: String,
+    status: Option<ExitStatus>,
+    errors: Vec<String>,
+    deadlock: bool,
+    /// the child still existed (signal 0 deliverable) right after `wait` returned
+    alive_after_wait: bool,
+    elapsed: Duration,
+    capin: i64,
+    capout: i64,
+    caperr: i64,
+}
+
+fn set_pipe_sizes(capin: u64, capout: u64, caperr: u64) -> impl FnMut() -> io::Result<()> + Send + Sync + 'static {
+    move || {
+        unsafe {
+            libc::fcntl(0, libc::F_SETPIPE_SZ, capin as libc::c_int);
+            libc::fcntl(1, libc::F_SETPIPE_SZ, capout as libc::c_int);
+            libc::fcntl(2, libc::F_SETPIPE_SZ, caperr as libc::c_int);
+        }
+        Ok(())
+    }
+}
+
+fn pipe_size(fd: RawFd) -> i64 {
+    unsafe { libc::fcntl(fd, libc::F_GETPIPE_SZ) as i64 }
+}
+
+/// the same command under `std::process` with one thread per direction
+fn oracle(sc: &Scn, cmd: &str, payload: &[u8], file: &str) -> Obs {
+    let mut o = Obs::default();
+    let mut c = std::process::Command::new("/bin/sh");
+    c.arg("-c").arg(cmd).env("C20F", file);
+    c.stdin(if sc.stdin_null { Stdio::null() } else { Stdio::piped() });
+    if sc.route == "pidfd" {
+        c.stdout(Stdio::null()).stderr(Stdio::null());
+    } else {
+        c.stdout(Stdio::piped()).stderr(Stdio::piped());
+    }
+    unsafe { c.pre_exec(set_pipe_sizes(sc.capin, sc.capout, sc.caperr)) };
+    let mut child = match c.spawn() {
+        Ok(c) => c,
+        Err(e) => {
+            o.errors.push(format!("oracle-spawn:{:?}", e.kind()));
+            return o;
+        }
+    };
+    use std::io::{Read, Write};
+    let held = sc.plan == "held";
+    let stdin = if held { None } else { child.stdin.take() };
+    let pay = payload.to_vec();
+    let wt = std::thread::spawn(move || match stdin {
+        Some(mut s) => match s.write_all(&pay) {
+            Ok(()) => "ok".to_string(),
+            Err(e) if e.kind() == io::ErrorKind::BrokenPipe => "epipe".to_string(),
+            Err(e) => format!("{:?}", e.kind()),
+        },
+        None => "ok".to_string(),
+    });
+    let stderr = child.stderr.take();
+    let et = std::thread::spawn(move || {
+        let mut v = vec![];
+        if let Some(mut s) = stderr {
+            let _ = s.read_to_end(&mut v);
+        }
+        v
+    });
+    if let Some(mut s) = child.stdout.take() {
+        let _ = s.read_to_end(&mut o.out);
+    }
+    // `held`: std's `wait` closes the stdin it still holds
+    o.status = child.wait().ok();
+    o.w = wt.join().unwrap();
+    o.err = et.join().unwrap();
+    o.sunk = read_sunk(file);
+    o
+}
+
+async fn read_loop<R: AsyncRead>(mut r: R, rch: usize, toend: bool) -> (Vec<u8>, Option<String>) {
+    if toend {
+        let BufResult(res, buf) = r.read_to_end(vec![]).await;
+        bump();
+        return match res {
+            Ok(n) if n == buf.len() => (buf, None),
+            Ok(n) => (buf, Some(format!("read_to_end-count:{n}"))),
+            Err(e) => (buf, Some(format!("{:?}", e.kind()))),
+        };
+    }
+    let mut acc = vec![];
+    loop {
+        let BufResult(res, buf) = r.read(Vec::with_capacity(rch)).await;
+        match res {
+            Ok(0) => return (acc, None),
+            Ok(n) => {
+                bump();
+                if n != buf.len() || n > rch {
+                    return (acc, Some(format!("read-count:{n}/{}", buf.len())));
+                }
+                acc.extend_from_slice(&buf);
+            }
+            Err(e) if e.kind() == io::ErrorKind::Interrupted => {}
+            Err(e) => return (acc, Some(format!("{:?}", e.kind()))),
+        }
+    }
+}
+
+async fn write_loop(mut w: ChildStdin, payload: Vec<u8>, wch: usize) -> String {
+    for chunk in payload.chunks(wch) {
+        let BufResult(res, _) = w.write_all(chunk.to_vec()).await;
+        match res {
+            Ok(()) => bump(),
+            Err(e) if e.kind() == io::ErrorKind::BrokenPipe => return "epipe".into(),
+            Err(e) => return format!("{:?}", e.kind()),
+        }
+    }
+    drop(w);
+    "ok".into()
+}
+
+/// transcription of compio-process/src/linux.rs `child_wait` (feature `linux_pidfd`, nightly only):
+/// the pidfd comes from `pidfd_open` instead of `ChildExt::pidfd`
+async fn child_wait_pidfd(child: std::process::Child) -> io::Result<ExitStatus> {
+    struct PidFdWrap {
+        child: std::process::Child,
+        fd: RawFd,
+    }
+    impl AsRawFd for PidFdWrap {
+        fn as_raw_fd(&self) -> RawFd {
+            self.fd
+        }
+    }
+    impl AsFd for PidFdWrap {
+        fn as_fd(&self) -> BorrowedFd<'_> {
+            unsafe { BorrowedFd::borrow_raw(self.fd) }
+        }
+    }
+    let raw = unsafe { libc::syscall(libc::SYS_pidfd_open, child.id() as libc::c_int, 0) } as RawFd;
+    if raw < 0 {
+        return Err(io::Error::last_os_error());
+    }
+    let fd = PidFdWrap { child, fd: raw };
+    let fd = SharedFd::new(fd);
+    let op = PollOnce::new(fd.clone(), Interest::Readable);
+    let r = compio_runtime::submit(op).await.0;
+    if let Err(e) = r {
+        unsafe { libc::close(raw) };
+        return Err(e);
+    }
+    let mut fd = fd.take().await.ok_or_else(|| io::Error::other("take-none"))?;
+    let r = fd.child.wait();
+    unsafe { libc::close(raw) };
+    r
+}
+
+fn after_wait(o: &mut Obs, pid: u32, r: io::Result<ExitStatus>) {
+    bump();
+    o.alive_after_wait = unsafe { libc::kill(pid as i32, 0) } == 0;
+    match r {
+        Ok(st) => o.status = Some(st),
+        Err(e) => o.errors.push(format!("wait:{:?}", e.kind())),
+    }
+}
+
+async fn run_compio(sc: &Scn, cmd: &str, payload: Vec<u8>, file: &str) -> Obs {
+    let mut o = Obs::default();
+    let t0 = Instant::now();
+    let toend = sc.opt("toend");
+    if sc.route == "pidfd" {
+        // status plumbing only: the stdio wrappers of compio-process cannot be built from outside
+        let mut c = std::process::Command::new("/bin/sh");
+        c.arg("-c").arg(cmd).env("C20F", file).stdin(Stdio::null()).stdout(Stdio::null()).stderr(Stdio::null());
+        c.process_group(0);
+        let child = match c.spawn() {
+            Ok(c) => c,
+            Err(e) => {
+                o.errors.push(format!("spawn:{:?}", e.kind()));
+                return o;
+            }
+        };
+        let pid = child.id();
+        ACTIVE_PID.store(pid as i32, Ordering::SeqCst);
+        let r = child_wait_pidfd(child).await;
+        after_wait(&mut o, pid, r);
+        o.w = "ok".into();
+        o.elapsed = t0.elapsed();
+        return o;
+    }
+    let mut c = Command::new("/bin/sh");
+    c.arg("-c").arg(cmd).env("C20F", file);
+    c.process_group(0);
+    if sc.stdin_null {
+        c.stdin(Stdio::null()).unwrap();
+    } else {
+        c.stdin(Stdio::piped()).unwrap();
+    }
+    c.stdout(Stdio::piped()).unwrap();
+    c.stderr(Stdio::piped()).unwrap();
+    unsafe { c.pre_exec(set_pipe_sizes(sc.capin, sc.capout, sc.caperr)) };
+    let mut child = match c.spawn() {
+        Ok(c) => c,
+        Err(e) => {
+            o.errors.push(format!("spawn:{:?}", e.kind()));
+            return o;
+        }
+    };
+    let pid = child.id();
+    ACTIVE_PID.store(pid as i32, Ordering::SeqCst);
+    o.capin = child.stdin.as_ref().map(|s| pipe_size(s.as_raw_fd())).unwrap_or(sc.capin as i64);
+    o.capout = child.stdout.as_ref().map(|s| pipe_size(s.as_raw_fd())).unwrap_or(-1);
+    o.caperr = child.stderr.as_ref().map(|s| pipe_size(s.as_raw_fd())).unwrap_or(-1);
+
+    let (wch, rch) = (sc.wch, sc.rch);
+    let held = sc.plan == "held";
+    let wwo = sc.opt("wwo");
+    let stdin = if held { None } else { child.stdin.take() };
+    let spawn_w = move |stdin: Option<ChildStdin>, payload: Vec<u8>| {
+        compio_runtime::spawn(async move {
+            match stdin {
+                Some(s) => write_loop(s, payload, wch).await,
+                None => "ok".to_string(),
+            }
+        })
+    };
+    macro_rules! join {
+        ($h:expr, $what:literal) => {
+            match $h.await {
+                Ok(v) => Some(v),
+                Err(_) => {
+                    o.errors.push(concat!("task-panic:", $what).to_string());
+                    None
+                }
+            }
+        };
+    }
+    macro_rules! reader_result {
+        ($r:expr, $field:ident, $what:literal) => {
+            if let Some((bytes, e)) = $r {
+                o.$field = bytes;
+                if let Some(e) = e {
+                    o.errors.push(format!(concat!($what, ":{}"), e));
+                }
+            }
+        };
+    }
+
+    if wwo {
+        // `wait_with_output`: wait ‖ read_to_end(stdout) ‖ read_to_end(stderr) inside compio-process
+        let hw = spawn_w(stdin, payload);
+        let r = child.wait_with_output().await;
+        bump();
+        o.alive_after_wait = unsafe { libc::kill(pid as i32, 0) } == 0;
+        match r {
+            Ok(out) => {
+                o.status = Some(out.status);
+                o.out = out.stdout;
+                o.err = out.stderr;
+            }
+            Err(e) => o.errors.push(format!("wait_with_output:{:?}", e.kind())),
+        }
+        if let Some(w) = join!(hw, "writer") {
+            o.w = w;
+        }
+    } else {
+        let stdout = child.stdout.take().unwrap();
+        let stderr = child.stderr.take().unwrap();
+        match sc.plan.as_str() {
+            "conc" | "held" => {
+                let hw = spawn_w(stdin, payload);
+                let ho = compio_runtime::spawn(read_loop(stdout, rch, toend));
+                let he = compio_runtime::spawn(read_loop(stderr, rch, toend));
+                let r = child.wait().await;
+                after_wait(&mut o, pid, r);
+                if let Some(w) = join!(hw, "writer") {
+                    o.w = w;
+                }
+                reader_result!(join!(ho, "stdout"), out, "stdout");
+                reader_result!(join!(he, "stderr"), err, "stderr");
+            }
+            "drainwait" => {
+                let hw = spawn_w(stdin, payload);
+                let ho = compio_runtime::spawn(read_loop(stdout, rch, toend));
+                let he = compio_runtime::spawn(read_loop(stderr, rch, toend));
+                if let Some(w) = join!(hw, "writer") {
+                    o.w = w;
+                }
+                reader_result!(join!(ho, "stdout"), out, "stdout");
+                reader_result!(join!(he, "stderr"), err, "stderr");
+                let r = child.wait().await;
+                after_wait(&mut o, pid, r);
+            }
+            "waitdrain" => {
+                let hw = spawn_w(stdin, payload);
+                let r = child.wait().await;
+                after_wait(&mut o, pid, r);
+                let ho = compio_runtime::spawn(read_loop(stdout, rch, toend));
+                let he = compio_runtime::spawn(read_loop(stderr, rch, toend));
+                if let Some(w) = join!(hw, "writer") {
+                    o.w = w;
+                }
+                reader_result!(join!(ho, "stdout"), out, "stdout");
+                reader_result!(join!(he, "stderr"), err, "stderr");
+            }
+            _ => {
+                // seq: the writer runs to completion (and closes) before any read is issued
+                let hw = spawn_w(stdin, payload);
+                if let Some(w) = join!(hw, "writer") {
+                    o.w = w;
+                }
+                let ho = compio_runtime::spawn(read_loop(stdout, rch, toend));
+                let he = compio_runtime::spawn(read_loop(stderr, rch, toend));
+                let r = child.wait().await;
+                after_wait(&mut o, pid, r);
+                reader_result!(join!(ho, "stdout"), out, "stdout");
+                reader_result!(join!(he, "stderr"), err, "stderr");
+            }
+        }
+    }
+    o.elapsed = t0.elapsed();
+    o
+}
+
+thread_local! {
+    static RTS: std::cell::RefCell<Vec<(String, Runtime)>> = const { std::cell::RefCell::new(vec![]) };
+}
+
+fn build_rt(drv: &str) -> io::Result<Runtime> {
     let mut pb = ProactorBuilder::new();
     pb.driver_type(if drv == "uring" { DriverType::IoUring } else { DriverType::Poll });
     Runtime::builder().with_proactor(pb).build()
 }
 
-fn watchdog(pid: u32, ms: u64) -> std::sync::Arc<std::sync::atomic::AtomicBool> {
-    let fired = std::sync::Arc::new(std::sync::atomic::AtomicBool::new(false));
-    let f2 = fired.clone();
-    std::thread::spawn(move || {
-        std::thread::sleep(Duration::from_millis(ms));
-        f2.store(true, std::sync::atomic::Ordering::SeqCst);
-        unsafe { libc::kill(pid as i32, libc::SIGKILL) };
+fn with_rt<T>(drv: &str, f: impl FnOnce(&Runtime) -> T) -> Result<T, String> {
+    RTS.with(|rts| {
+        let mut rts = rts.borrow_mut();
+        if !rts.iter().any(|(d, _)| d == drv) {
+            let rt = build_rt(drv).map_err(|e| format!("no-driver:{:?}", e.kind()))?;
+            if rt.driver_type().is_iouring() != (drv == "uring") {
+                return Err("no-driver:mismatch".into());
+            }
+            rts.push((drv.to_string(), rt));
+        }
+        let rt = &rts.iter().find(|(d, _)| d == drv).unwrap().1;
+        Ok(f(rt))
+    })
+}
+
+static CASE_NO: AtomicU64 = AtomicU64::new(0);
+
+fn tmp_file(tag: &str) -> String {
+    let dir = std::env::temp_dir().join(format!("c20-{}", std::process::id()));
+    let _ = fs::create_dir_all(&dir);
+    dir.join(format!("{}-{tag}", CASE_NO.fetch_add(1, Ordering::Relaxed))).to_string_lossy().into_owned()
+}
+
+fn exec_line(line: &str, ex: &mut Exec) -> String {
+    let Some(sc) = parse_line(line) else { return "bad-op".into() };
+    let cmd = compile(&sc.script);
+    let payload = if sc.stdin_null { vec![] } else { payload_of(sc.paylen, sc.payseed) };
+    let nops = sc.script.iter().filter(|a| **a == Act::Nop).count() as u64;
+    let reads_stdin = sc.script.iter().any(|a| matches!(a, Act::Copy { .. }));
+    let echoes = sc.script.iter().any(|a| matches!(a, Act::Copy { dst: 'o' | 'e', .. }));
+
+    let of = tmp_file("o");
+    let orc = oracle(&sc, &cmd, &payload, &of);
+
+    let cf = tmp_file("c");
+    DEADLOCK.store(false, Ordering::SeqCst);
+    THRESH_MS.store(250 + 3 * NOP_MS * nops, Ordering::Relaxed);
+    let r = with_rt(&sc.drv, |rt| rt.block_on(run_compio(&sc, &cmd, payload.clone(), &cf)));
+    ACTIVE_PID.store(0, Ordering::SeqCst);
+    let mut o = match r {
+        Ok(o) => o,
+        Err(e) => return e,
+    };
+    o.deadlock = DEADLOCK.swap(false, Ordering::SeqCst);
+    o.sunk = read_sunk(&cf);
+
+    ex.tag(format!("drv:{}", sc.drv));
+    ex.tag(format!("route:{}", sc.route));
+    ex.tag(format!("plan:{}{}", sc.plan, if sc.opt("wwo") { "+wait_with_output" } else { "" }));
+    ex.tag(format!("mode:{}", sc.mode));
+    ex.tag(format!("cap:{}", sc.capout));
+    ex.tag(format!("wch:{} rch:{}", sc.wch, if sc.opt("toend") { "read_to_end".to_string() } else { sc.rch.to_string() }));
+    ex.tag(match payload.len() as u64 {
+        0 => "payload:0",
+        n if n < sc.capin => "payload:<cap",
+        n if n <= sc.capin + sc.capout => "payload:cap..2cap",
+        _ => "payload:>2cap",
     });
-    fired
+    for a in &sc.script {
+        ex.tag(match a {
+            Act::Copy { lim: None, dst: 'n', .. } => "child:sink",
+            Act::Copy { lim: None, .. } => "child:echo-all",
+            Act::Copy { lim: Some(_), .. } => "child:echo-limit",
+            Act::Emit { dst: 'o', .. } => "child:emit-stdout",
+            Act::Emit { .. } => "child:emit-stderr",
+            Act::Nop => "child:sleep",
+            Act::Exit(0) => "child:exit0",
+            Act::Exit(_) => "child:exit-nonzero",
+            Act::Kill(_) => "child:signal",
+        });
+    }
+
+    if sc.route != "pidfd" && (o.capout != sc.capout as i64 || o.caperr != sc.caperr as i64 || (!sc.stdin_null && o.capin != sc.capin as i64)) {
+        ex.fail("C20:harness-pipe-size", format!("{line}: pipe sizes {} {} {}", o.capin, o.capout, o.caperr));
+    }
+    if !orc.errors.is_empty() {
+        ex.fail("C20:harness-oracle", format!("{line}: {:?}", orc.errors));
+    }
+
+    // ---- monitors (implementation only: std::process run of the same command, the command itself, the clock)
+    if o.deadlock {
+        ex.tag("outcome:deadlock");
+        let by_design = sc.plan == "seq" || sc.plan == "waitdrain";
+        if !by_design {
+            // the threads of the oracle finished the same job with both directions active
+            let sig = if sc.plan == "held" {
+                "F201:wait-keeps-stdin-open"
+            } else if sc.drv == "poll" && !sc.stdin_null && !payload.is_empty() {
+                "F200:poll-write-blocks-runtime"
+            } else {
+                "C20:deadlock"
+            };
+            ex.fail(sig, format!("{line}: no progress, parent and child asleep; std::process finished with {:?}", orc.status.as_ref().map(show_status)));
+        }
+    } else {
+        ex.tag("outcome:completed");
+        if !o.errors.is_empty() {
+            ex.fail("C20:io-error", format!("{line}: {:?}", o.errors));
+        }
+        if o.out != orc.out {
+            ex.fail("C20:stdout-incomplete", format!("{line}: read {} oracle {}", show_bytes(&o.out), show_bytes(&orc.out)));
+        }
+        if o.err != orc.err {
+            ex.fail("C20:stderr-incomplete", format!("{line}: read {} oracle {}", show_bytes(&o.err), show_bytes(&orc.err)));
+        }
+        // what the command must produce, known without running anything
+        if sc.script.first() == Some(&Act::Copy { lim: None, blk: CAT_BLK, dst: 'o' }) && o.out[..payload.len().min(o.out.len())] != payload[..] {
+            ex.fail("C20:echo-mismatch", format!("{line}: echoed {} sent {}", show_bytes(&o.out), show_bytes(&payload)));
+        }
+        if sc.script.first() == Some(&Act::Copy { lim: None, blk: WC_BLK, dst: 'n' }) && o.sunk != payload.len() as u64 {
+            ex.fail("C20:stdin-incomplete", format!("{line}: child counted {} of {}", o.sunk, payload.len()));
+        }
+        if o.sunk != orc.sunk {
+            ex.fail("C20:stdin-incomplete", format!("{line}: child counted {} oracle {}", o.sunk, orc.sunk));
+        }
+        if sc.mode == "exact" && o.w != orc.w {
+            ex.fail("C20:writer-result", format!("{line}: {} oracle {}", o.w, orc.w));
+        }
+        match (&o.status, &orc.status) {
+            (Some(a), Some(b)) if a == b => {}
+            (a, b) => ex.fail("C20:status", format!("{line}: {:?} oracle {:?}", a, b)),
+        }
+        if o.alive_after_wait {
+            ex.fail("C20:wait-early", format!("{line}: the child still exists after wait returned"));
+        }
+        if o.elapsed < Duration::from_millis(NOP_MS * nops) {
+            ex.fail("C20:wait-early", format!("{line}: returned after {:?}, the child sleeps {} ms", o.elapsed, NOP_MS * nops));
+        }
+    }
+    if !payload.is_empty() || !o.out.is_empty() || !o.err.is_empty() || o.status.map(|s| !s.success()).unwrap_or(false) || o.deadlock {
+        ex.nontrivial = true;
+    }
+    let _ = (reads_stdin, echoes);
+
+    if sc.mode == "loose" {
+        return "loose".into();
+    }
+    if o.deadlock {
+        return "deadlock".into();
+    }
+    if !o.errors.is_empty() {
+        return format!("error:{}", o.errors.join("|"));
+    }
+    format!(
+        "ok out={} err={} sunk={} w={} st={}",
+        show_bytes(&o.out),
+        show_bytes(&o.err),
+        o.sunk,
+        o.w,
+        o.status.as_ref().map(show_status).unwrap_or("none".into())
+    )
+}
+
+fn exec(case: &Case) -> Exec {
+    let mut ex = Exec::new();
+    for l in &case.lines {
+        let out = exec_line(l, &mut ex);
+        ex.out.push(out);
+    }
+    ex
+}
+
+// ---------------------------------------------------------------- generator
+
+fn base(drv: &str, cap: u64) -> Scn {
+    Scn {
+        drv: drv.into(),
+        route: "pool".into(),
+        capin: cap,
+        capout: cap,
+        caperr: cap,
+        plan: "conc".into(),
+        wch: 4096,
+        rch: 4096,
+        stdin_null: false,
+        paylen: 0,
+        payseed: 1,
+        mode: "exact".into(),
+        script: vec![],
+        opts: vec![],
+    }
+}
+
+fn cat(dst: char) -> Act {
+    Act::Copy { lim: None, blk: CAT_BLK, dst }
+}
+
+fn dd(blk: u64, dst: char) -> Act {
+    Act::Copy { lim: None, blk, dst }
+}
+
+fn sink() -> Act {
+    Act::Copy { lim: None, blk: WC_BLK, dst: 'n' }
+}
+
+fn head(n: u64, dst: char) -> Act {
+    Act::Copy { lim: Some(n), blk: HEAD_BLK, dst }
+}
+
+const CHUNKS: [usize; 4] = [1, 7, 4096, 65537];
+const CODES: [u32; 6] = [0, 1, 2, 3, 127, 255];
+const SIGS: [u32; 5] = [9, 15, 1, 2, 10];
+
+/// keep the model driver's cost bounded: tiny chunks only with small payloads
+fn clamp_chunks(sc: &mut Scn) {
+    let n = sc.paylen.max(total_emit(&sc.script) as usize);
+    if n > 9000 {
+        if sc.wch == 1 {
+            sc.wch = 4096;
+        }
+        if sc.rch == 1 {
+            sc.rch = 4096;
+        }
+    }
+    if n > 70000 {
+        if sc.wch == 7 {
+            sc.wch = 65537;
+        }
+        if sc.rch == 7 {
+            sc.rch = 65537;
+        }
+    }
+}
+
+fn total_emit(s: &[Act]) -> u64 {
+    s.iter().map(|a| if let Act::Emit { n, .. } = a { *n } else { 0 }).sum()
+}
+
+/// for an echoing child on the polling driver the outcome is only determined when everything fits
+/// into the two pipes (see Props: `blocking_fits_completes`, `F200`): otherwise judge by monitors only
+fn poll_mode(sc: &mut Scn) {
+    if sc.drv == "poll" && !sc.stdin_null {
+        let echoes = sc.script.iter().any(|a| matches!(a, Act::Copy { dst: 'o' | 'e', .. }));
+        if echoes && sc.paylen as u64 > (sc.capin + sc.capout.min(sc.caperr)) * 3 / 4 {
+            sc.mode = "loose".into();
+        }
+    }
+}
+
+fn push(cases: &mut Vec<Case>, name: &str, mut sc: Scn) {
+    clamp_chunks(&mut sc);
+    poll_mode(&mut sc);
+    let n = cases.len();
+    cases.push(Case { name: format!("{name}-{n}"), lines: vec![sc.line()] });
+}
+
+fn payload_sizes(cap: u64) -> Vec<usize> {
+    let c = cap as usize;
+    vec![0, 1, c - 1, c, c + 1, 2 * c + 3, 4 * c]
+}
+
+fn generate(tier: &str, rng: &mut Rng) -> Vec<Case> {
+    let thorough = tier == "thorough";
+    let mut cases = vec![];
+    let drvs = ["uring", "poll"];
+    let small = 4096u64;
+    let dflt = 65536u64;
+
+    // A. echo through `cat`: both directions active at once, payloads around and above the capacity
+    for drv in drvs {
+        for cap in [small, dflt] {
+            for (i, pay) in payload_sizes(cap).into_iter().enumerate() {
+                let pairs: Vec<(usize, usize)> = if thorough {
+                    CHUNKS.iter().flat_map(|w| CHUNKS.iter().map(move |r| (*w, *r))).collect()
+                } else {
+                    (0..3).map(|_| (*rng.pick(&CHUNKS), *rng.pick(&CHUNKS))).collect()
+                };
+                for (wch, rch) in pairs {
+                    if cap == dflt && pay > 70000 && !thorough && rng.chance(1, 2) {
+                        continue;
+                    }
+                    let mut sc = base(drv, cap);
+                    sc.paylen = pay;
+                    sc.payseed = rng.below(1000);
+                    sc.wch = wch;
+                    sc.rch = rch;
+                    sc.script = vec![if i % 3 == 2 { cat('e') } else { cat('o') }, Act::Exit(*rng.pick(&CODES))];
+                    sc.plan = (*rng.pick(&["conc", "conc", "drainwait"])).into();
+                    if rng.chance(1, 4) {
+                        sc.opts.push("toend".into());
+                    }
+                    push(&mut cases, "echo", sc);
+                }
+            }
+        }
+    }
+
+    // B. sink: the child reports how many bytes reached it
+    for drv in drvs {
+        for cap in [small, dflt] {
+            for pay in payload_sizes(cap) {
+                for _ in 0..(if thorough { 4 } else { 1 }) {
+                    let mut sc = base(drv, cap);
+                    sc.paylen = pay;
+                    sc.payseed = rng.below(1000);
+                    sc.wch = *rng.pick(&CHUNKS);
+                    sc.script = vec![sink(), Act::Exit(*rng.pick(&CODES))];
+                    sc.plan = (*rng.pick(&["conc", "drainwait", "waitdrain", "seq"])).into();
+                    push(&mut cases, "sink", sc);
+                }
+            }
+        }
+    }
+
+    // C. `head -c N`: the child stops reading; the writer ends with Ok or BrokenPipe
+    for drv in drvs {
+        for cap in [small, dflt] {
+            for _ in 0..(if thorough { 24 } else { 5 }) {
+                let mut sc = base(drv, cap);
+                let n = rng.range(0, cap * 3 / 4);
+                sc.paylen = if rng.chance(1, 2) { rng.range(0, n) as usize } else { (n + cap + rng.range(4097, 9000)) as usize };
+                sc.payseed = rng.below(1000);
+                sc.wch = *rng.pick(&CHUNKS);
+                sc.rch = *rng.pick(&CHUNKS);
+                let dst = *rng.pick(&['o', 'e', 'n']);
+                sc.script = vec![head(n, dst), Act::Exit(*rng.pick(&CODES))];
+                sc.plan = (*rng.pick(&["conc", "drainwait"])).into();
+                push(&mut cases, "head", sc);
+            }
+        }
+    }
+
+    // D. children that only write: stdout and stderr interleaved, below and above the capacity,
+    //    every exit code class and signals
+    for drv in drvs {
+        for cap in [small, dflt] {
+            for k in 0..(if thorough { 40 } else { 10 }) {
+                let mut sc = base(drv, cap);
+                sc.stdin_null = rng.chance(1, 2);
+                let mut script = vec![];
+                let big = k % 4 == 0;
+                for _ in 0..rng.range(1, 4) {
+                    let n = match rng.below(4) {
+                        0 => rng.range(0, 64),
+                        1 => rng.range(65, cap - 1),
+                        2 => cap + rng.range(0, 2),
+                        _ => {
+                            if big {
+                                rng.range(cap, 4 * cap)
+                            } else {
+                                rng.range(0, 300)
+                            }
+                        }
+                    };
+                    script.push(Act::Emit { dst: *rng.pick(&['o', 'e']), byte: *rng.pick(b"abcxyzABC019"), n });
+                }
+                script.push(if rng.chance(1, 3) { Act::Kill(*rng.pick(&SIGS)) } else { Act::Exit(*rng.pick(&CODES)) });
+                sc.script = script;
+                sc.rch = *rng.pick(&CHUNKS);
+                sc.plan = (*rng.pick(&["conc", "drainwait"])).into();
+                if rng.chance(1, 4) {
+                    sc.opts.push("toend".into());
+                }
+                if sc.plan == "conc" && rng.chance(1, 3) {
+                    sc.opts.push("wwo".into());
+                }
+                push(&mut cases, "emit", sc);
+            }
+        }
+    }
+
+    // E. wait first, read afterwards: the buffered bytes are still there (outputs below the capacity)
+    for drv in drvs {
+        for cap in [small, dflt] {
+            for _ in 0..(if thorough { 16 } else { 4 }) {
+                let mut sc = base(drv, cap);
+                sc.stdin_null = rng.chance(1, 2);
+                sc.plan = "waitdrain".into();
+                sc.script = vec![
+                    Act::Emit { dst: 'o', byte: b'q', n: rng.range(0, cap * 3 / 4) },
+                    Act::Emit { dst: 'e', byte: b'r', n: rng.range(0, cap * 3 / 4) },
+                    if rng.chance(1, 3) { Act::Kill(*rng.pick(&SIGS)) } else { Act::Exit(*rng.pick(&CODES)) },
+                ];
+                sc.rch = *rng.pick(&CHUNKS);
+                push(&mut cases, "waitdrain", sc);
+            }
+        }
+    }
+
+    // F. status and timing: the child sleeps, wait must not return before; both wait routes
+    for drv in drvs {
+        for route in ["pool", "pidfd"] {
+            let mut ends: Vec<Act> = CODES.iter().map(|c| Act::Exit(*c)).chain(SIGS.iter().map(|s| Act::Kill(*s))).collect();
+            if !thorough {
+                ends = vec![Act::Exit(*rng.pick(&CODES)), Act::Exit(*rng.pick(&CODES)), Act::Kill(*rng.pick(&SIGS)), Act::Kill(9), Act::Kill(15)];
+            }
+            for (i, end) in ends.into_iter().enumerate() {
+                let mut sc = base(drv, dflt);
+                sc.route = route.into();
+                sc.stdin_null = true;
+                sc.script = if i % 3 == 0 { vec![Act::Nop, end] } else { vec![end] };
+                sc.plan = (*rng.pick(&["conc", "drainwait"])).into();
+                push(&mut cases, "status", sc);
+            }
+        }
+    }
+
+    // G. orders that cannot work (documented, by design): write everything before reading,
+    //    wait before reading more than a pipe holds. Small pipes, `dd bs=4096` as the echo.
+    for drv in drvs {
+        for (k, plan) in ["seq", "waitdrain"].into_iter().enumerate() {
+            // completes: fits into the pipes
+            let mut sc = base(drv, small);
+            sc.plan = plan.into();
+            sc.paylen = rng.range(1, 2 * small * 3 / 4) as usize;
+            sc.payseed = rng.below(1000);
+            sc.script = vec![dd(4096, 'o'), Act::Exit(0)];
+            if plan == "waitdrain" {
+                sc.paylen = rng.range(1, small * 3 / 4) as usize;
+            }
+            push(&mut cases, "order-fits", sc);
+            if thorough || (k == 0) == (drv == "uring") {
+                // cannot complete: more than stdin pipe + block + stdout pipe
+                let mut sc = base(drv, small);
+                sc.plan = plan.into();
+                sc.paylen = (3 * small + rng.range(4097, 9000)) as usize;
+                sc.payseed = rng.below(1000);
+                sc.wch = *rng.pick(&[7usize, 4096, 65537]);
+                sc.script = vec![dd(4096, 'o'), Act::Exit(0)];
+                push(&mut cases, "order-deadlock", sc);
+            }
+        }
+    }
+
+    // H. findings. F200: polling driver, one write larger than stdin pipe + block + stdout pipe.
+    //    F201: `wait` / `wait_with_output` with `stdin` still inside the `Child`.
+    {
+        let mut sc = base("poll", small);
+        sc.paylen = (3 * small + rng.range(4097, 9000)) as usize;
+        sc.wch = 65537;
+        sc.script = vec![dd(4096, 'o'), Act::Exit(0)];
+        push(&mut cases, "f200", sc.clone());
+        sc.drv = "uring".into();
+        push(&mut cases, "f200-uring", sc);
+        if thorough {
+            let mut sc = base("poll", dflt);
+            sc.paylen = 1 << 20;
+            sc.wch = 1 << 20;
+            sc.script = vec![cat('o'), Act::Exit(0)];
+            push(&mut cases, "f200-cat", sc);
+        }
+        for drv in drvs {
+            for wwo in [false, true] {
+                if !thorough && wwo != (drv == "poll") {
+                    continue;
+                }
+                let mut sc = base(drv, dflt);
+                sc.plan = "held".into();
+                sc.script = vec![cat('o'), Act::Exit(0)];
+                if wwo {
+                    sc.opts.push("wwo".into());
+                }
+                push(&mut cases, "f201", sc);
+            }
+            // the same call is fine when the child does not wait for end of file
+            let mut sc = base(drv, dflt);
+            sc.plan = "held".into();
+            sc.script = vec![Act::Emit { dst: 'o', byte: b'k', n: 10 }, Act::Exit(4)];
+            push(&mut cases, "held-ok", sc);
+        }
+    }
+
+    // I. random mixtures
+    for _ in 0..(if thorough { 400 } else { 40 }) {
+        let drv = *rng.pick(&drvs);
+        let cap = *rng.pick(&[small, small, 8192, dflt]);
+        let mut sc = base(drv, cap);
+        sc.capout = *rng.pick(&[cap, small]);
+        sc.caperr = *rng.pick(&[cap, small]);
+        sc.wch = *rng.pick(&CHUNKS);
+        sc.rch = *rng.pick(&CHUNKS);
+        sc.payseed = rng.below(1000);
+        let mut script = vec![];
+        let mut consumed = 0u64;
+        let mut all = false;
+        for _ in 0..rng.range(1, 4) {
+            match rng.below(5) {
+                0 if !all => {
+                    let n = rng.range(0, small * 3 / 4);
+                    consumed += n;
+                    script.push(head(n, *rng.pick(&['o', 'e', 'n'])));
+                }
+                1 if !all => {
+                    all = true;
+                    script.push(match rng.below(3) {
+                        0 => cat(*rng.pick(&['o', 'e'])),
+                        1 => dd(*rng.pick(&[1u64, 512, 4096]), *rng.pick(&['o', 'e'])),
+                        _ => sink(),
+                    });
+                }
+                2 => script.push(Act::Emit { dst: *rng.pick(&['o', 'e']), byte: *rng.pick(b"abcxyzABC019"), n: rng.range(0, small * 3 / 4) }),
+                3 if rng.chance(1, 4) => script.push(Act::Nop),
+                _ => script.push(Act::Emit { dst: *rng.pick(&['o', 'e']), byte: *rng.pick(b"mnop"), n: rng.range(0, 40) }),
+            }
+        }
+        script.push(if rng.chance(1, 4) { Act::Kill(*rng.pick(&SIGS)) } else { Act::Exit(*rng.pick(&CODES)) });
+        sc.script = script;
+        let capmin = sc.capin.min(sc.capout).min(sc.caperr);
+        sc.paylen = if all {
+            rng.range(0, if rng.chance(1, 3) { 4 * capmin } else { capmin }) as usize
+        } else if rng.chance(1, 2) {
+            rng.range(0, consumed) as usize
+        } else {
+            (consumed + sc.capin + rng.range(4097, 9000)) as usize
+        };
+        // `dd bs=1` moves one byte per system call: keep it short
+        if sc.script.iter().any(|a| matches!(a, Act::Copy { blk: 1, .. })) {
+            sc.paylen = sc.paylen.min(3000);
+        }
+        sc.plan = (*rng.pick(&["conc", "conc", "drainwait"])).into();
+        if rng.chance(1, 4) {
+            sc.opts.push("toend".into());
+        }
+        push(&mut cases, "mix", sc);
+    }
+
+    cases
 }
 
 fn main() {
-    let which = std::env::args().nth(1).unwrap_or_default();
-    let n: usize = std::env::args().nth(2).and_then(|s| s.parse().ok()).unwrap_or(1 << 20);
-    for drv in ["uring", "poll"] {
-        let rt = build_rt(drv).unwrap();
-        println!("driver {drv} iouring={}", rt.driver_type().is_iouring());
-        let t0 = Instant::now();
-        match which.as_str() {
-            "cat" => rt.block_on(async {
-                let mut child = Command::new("cat").stdin(Stdio::piped()).unwrap().stdout(Stdio::piped()).unwrap().spawn().unwrap();
-                let fired = watchdog(child.id(), 3000);
-                let mut stdin = child.stdin.take().unwrap();
-                let mut stdout = child.stdout.take().unwrap();
-                let w = compio_runtime::spawn(async move {
-                    let data = vec![7u8; n];
-                    let r = stdin.write_all(data).await.0;
-                    drop(stdin);
-                    r.map_err(|e| e.kind())
-                });
-                let r = compio_runtime::spawn(async move {
-                    let (r, b) = stdout.read_to_end(vec![]).await.into();
-                    (r.map_err(|e: std::io::Error| e.kind()), b.len())
-                });
-                let wr = w.await;
-                let rr = r.await;
-                let st = child.wait().await;
-                println!("  cat n={n}: write {:?} read {:?} status {:?} watchdog={} t={:?}", wr, rr, st, fired.load(std::sync::atomic::Ordering::SeqCst), t0.elapsed());
-            }),
-            "waitstdin" => rt.block_on(async {
-                let child = Command::new("cat").stdin(Stdio::piped()).unwrap().stdout(Stdio::null()).unwrap().spawn().unwrap();
-                let fired = watchdog(child.id(), 2000);
-                let st = child.wait().await;
-                println!("  wait with stdin not taken: {:?} watchdog={} t={:?}", st, fired.load(std::sync::atomic::Ordering::SeqCst), t0.elapsed());
-                let child = Command::new("cat").stdin(Stdio::piped()).unwrap().stdout(Stdio::piped()).unwrap().spawn().unwrap();
-                let fired = watchdog(child.id(), 2000);
-                let st = child.wait_with_output().await;
-                println!("  wait_with_output with stdin not taken: {:?} watchdog={} t={:?}", st, fired.load(std::sync::atomic::Ordering::SeqCst), t0.elapsed());
-            }),
-            _ => {}
-        }
-    }
-    if which == "waitstdin" {
-        let t0 = Instant::now();
-        let mut child = std::process::Command::new("cat").stdin(Stdio::piped()).stdout(Stdio::null()).spawn().unwrap();
-        let fired = watchdog(child.id(), 2000);
-        let st = child.wait();
-        println!("std wait with stdin not taken: {:?} watchdog={} t={:?}", st, fired.load(std::sync::atomic::Ordering::SeqCst), t0.elapsed());
-    }
+    start_watchdog();
+    run_harness(
+        generate,
+        exec,
+        "a case is non-trivial when at least one byte went through a pipe, the status is not success, or the run deadlocked",
+    );
+    let _ = fs::remove_dir_all(std::env::temp_dir().join(format!("c20-{}", std::process::id())));
 }
